@@ -597,4 +597,31 @@ theorem delete_length_forest {t : T} (hf : Forest t) (l : List Str) (i : Nat) (h
     · exact hi
     · have := ancestors_lt_size hf ((mem_allChildren hf).mp hj); omega
 
+/-- what a successful `append_to_family` step did -/
+theorem step_appendToFamily_ok (s : S) (i : Nat) (txt : Str) (ind : Int) (ai : Bool)
+    (hok : (step s (.appendToFamily i txt ind ai)).2 = .ok ()) :
+    s.dirty = false ∧ i < s.texts.length ∧ ¬ (ai = true ∧ ind > 0) ∧
+    ∃ idx, appendIndex s.tree s.width i (familyText (indentOf s.tree i) s.width txt ind ai) = .ok idx ∧
+      (step s (.appendToFamily i txt ind ai)).1
+        = autoCommit { s with texts := pyInsert s.texts idx (familyText (indentOf s.tree i) s.width txt ind ai),
+                              stale := true, dirty := true } := by
+  revert hok
+  unfold step; dsimp only
+  split
+  · intro h; cases h
+  · rename_i hg
+    split
+    · intro h; cases h
+    · rename_i hai
+      split
+      · intro h; cases h
+      · rename_i idx hidx
+        intro _
+        refine ⟨?_, ?_, ?_, idx, hidx, rfl⟩
+        · cases hd : s.dirty
+          · rfl
+          · simp [hd] at hg
+        · simp at hg; omega
+        · simpa using hai
+
 end Ccp.Edit
